@@ -25,7 +25,12 @@ if not MERGE:
 mpath = os.path.join(VERIF, "seeded", "MATRIX.json")
 matrix = json.load(open(mpath)) if os.path.exists(mpath) else {}
 if LANE:
-    mpath = os.path.join(VERIF, "seeded", ".matrix_lane_%d.json" % LANE[0]); matrix = {}
+    mpath = os.path.join(VERIF, "seeded", ".matrix_lane_%d.json" % LANE[0])
+    matrix = json.load(open(mpath)) if os.path.exists(mpath) else {}   # resume: what this lane has already evaluated is kept
+    import glob
+    done = {}
+    for f in glob.glob(os.path.join(VERIF, "seeded", ".matrix_lane_*.json")): done.update(json.load(open(f)))
+    names = [n for n in names if n not in done or done[n].get("machinery_errors")]
 if MERGE:
     import glob
     for f in sorted(glob.glob(os.path.join(VERIF, "seeded", ".matrix_lane_*.json"))):
